@@ -51,6 +51,8 @@ class C05(C04):
                 continue
             for key, mo in model_obs.items():
                 obs = t[key]
+                if obs[0] == "timeout" and mo[0] == "unspec" and "matched empty" in str(mo[1]):
+                    continue  # a repetition over something that matched empty: outside the domain of the property (it need not terminate)
                 if obs[0] in ("exc", "timeout"):
                     self.fail(out, spec, f"exc:{obs[1]}" if obs[0] == "exc" else "timeout", mode, *key, gc.show(mo), gc.show(obs))
                 elif not modes.same_outcome_as_model(obs, mo):
@@ -123,7 +125,7 @@ def two_level_specs(tier: str):
                     for f1 in (False, True):
                         for f2 in (False, True):
                             inner = ("seq", (o2, NEVER)) if f2 else o2
-                            if w2 == "star" and (f2 is False and o2[0] in ("push", "pushlit", "peek")):
+                            if w2 == "star" and (f2 is False and o2[0] in ("push", "pushlit", "peek", "popall")):
                                 continue  # a repetition that never fails
                             mid2 = wrap(w2, ("grp", inner)) if w2 != "none" else ("grp", inner)
                             body1 = ("seq", (o1, mid2) + ((NEVER,) if f1 else ()))
